@@ -7,9 +7,9 @@ import (
 	"time"
 
 	"github.com/tidwall/geojson"
-	"github.com/tidwall/geojson/geo"
 	"github.com/tidwall/geojson/geometry"
 	"github.com/tidwall/gjson"
+	"github.com/tidwall/tile38/internal/collection"
 	"github.com/tidwall/tile38/internal/field"
 	"github.com/tidwall/tile38/internal/glob"
 	"github.com/tidwall/tile38/internal/object"
@@ -382,18 +382,15 @@ func fenceMatchNearbys(
 	if col == nil {
 		return nil
 	}
-	center := obj.Geo().Center()
-	minLat, minLon, maxLat, maxLon :=
-		geo.RectFromCenter(center.Y, center.X, fence.roam.meters)
-	rect := geometry.Rect{
-		Min: geometry.Point{X: minLon, Y: minLat},
-		Max: geometry.Point{X: maxLon, Y: maxLat},
-	}
+	// the box of the whole disc (RectFromCenter alone has no result for a
+	// radius that reaches a pole to the last bit, or a minuscule one)
+	rect := collection.SearchRect(
+		geojson.NewCircle(obj.Geo().Center(), fence.roam.meters, 12))
 	col.Intersects(geojson.NewRect(rect), 0, nil, nil,
 		func(o *object.Object) bool {
 			var idMatch bool
-			if o.ID() == obj.ID() {
-				return true // skip self
+			if o.ID() == obj.ID() && fence.roam.key == fence.key {
+				return true // skip self (same id in another collection is another object)
 			}
 			meters := obj.Geo().Distance(o.Geo())
 			if meters > fence.roam.meters {
